@@ -39,10 +39,8 @@ Theorem c11_ordering_refuted :
   (exists xi wi xj wj, 0 < wi /\ 0 < wj /\ xi + wi <= xj /\ 2 * xj + 3 * wj < 2 * xi + 3 * wi).
 Proof. exact order_key_inverted_outside. Qed.
 
-(* [P] whole-circuit idempotence (legalize (legalize c) = legalize c for row-high designs and
-   ordering width in [0,1]) is NOT proved for the Abacus model: the three lemmas above are its
-   ingredients; the statement itself is validated on every case of the correspondence, on the C++
-   and on the extracted model. *)
+(* whole-circuit idempotence: proved below (c11_legal_placement_not_moved, c11_legalize_idempotent,
+   c11_legalize_twice; LegalizerIdempotentProofs.v) *)
 
 Example c11_nonvacuous :
   legal_targets 0 10 [(2, 1); (3, 3); (1, 9)] /\
@@ -54,3 +52,163 @@ Print Assumptions c11_row_fixpoint.
 Print Assumptions c11_own_position_costs_nothing.
 Print Assumptions c11_order_preserved.
 Print Assumptions c11_ordering_refuted.
+
+(* ================================================================== *)
+(* C11 for the RAW legalizer model (LegalizerIdempotentProofs).  The [P] remark above is
+   superseded: the circuit-level statement is proved below. *)
+Require Import CV.Orient CV.FreeSpace CV.Circuit CV.CircuitProofs CV.Legalizer CV.LegalizerProofs
+               CV.LegalizerAbacusProofs CV.LegalizerSoundProofs CV.LegalizerTrivialProofs
+               CV.LegalizerIdempotentProofs.
+
+(* [F] the Abacus pass (abacus_run: row scans with their early stops and strict comparisons,
+   per-segment RowLegalizer states, read-back) over pairwise disjoint segments of one positive
+   height: cells that are row-high, each inside a segment its polarity admits
+   (sits c r: bottom edge on r, x-range inside r), handed over so that within each segment
+   they come left to right, are returned exactly at their targets, with the orientation
+   prescribed in that segment *)
+Theorem c11_abacus_fixpoint : forall rows0 cells rh,
+  0 < rh ->
+  (forall r, In r rows0 -> maxY (rr r) - minY (rr r) = rh /\ minX (rr r) <= maxX (rr r)) ->
+  pairwise_disjoint (map rr rows0) ->
+  (forall m c, nth_error cells m = Some c ->
+     0 < cw c /\ ch c = rh /\ exists r, In r rows0 /\ sits c r /\ seg_orientation c r <> oINVALID) ->
+  (forall m m' c c' r, (m < m')%nat -> nth_error cells m = Some c -> nth_error cells m' = Some c' ->
+     In r rows0 -> sits c r -> sits c' r -> ctx c + cw c <= ctx c') ->
+  forall m c, nth_error cells m = Some c ->
+    exists r, In r rows0 /\ sits c r /\
+      nth_error (abacus_run rows0 cells) m = Some (Some (ctx c, cty c, seg_orientation c r)).
+Proof. exact abacus_fixpoint. Qed.
+
+(* [F] Legalizer::run (Tetris pass selecting nothing, remainingRows, Abacus pass, import,
+   checkAllPlaced) returns Ok with every cell at its target *)
+Theorem c11_legalize_fixpoint : forall rows0 cellsL order rh,
+  0 < rh ->
+  (forall r, In r rows0 -> maxY (rr r) - minY (rr r) = rh /\ nonempty_row r) ->
+  pairwise_disjoint (map rr rows0) ->
+  (forall i c, nth_error cellsL i = Some c ->
+     0 < cw c /\ ch c = rh /\ exists r, In r rows0 /\ sits c r /\ seg_orientation c r <> oINVALID) ->
+  (forall i j ci cj r, i <> j -> nth_error cellsL i = Some ci -> nth_error cellsL j = Some cj ->
+     In r rows0 -> sits ci r -> sits cj r -> ctx ci + cw ci <= ctx cj \/ ctx cj + cw cj <= ctx ci) ->
+  NoDup order -> (forall i, In i order <-> (i < length cellsL)%nat) ->
+  (forall a b i j ci cj r, nth_error order a = Some i -> nth_error order b = Some j ->
+     nth_error cellsL i = Some ci -> nth_error cellsL j = Some cj ->
+     In r rows0 -> sits ci r -> sits cj r -> ctx ci + cw ci <= ctx cj -> (a < b)%nat) ->
+  exists pl, legalize rows0 cellsL order = Ok pl /\ length pl = length cellsL /\
+    forall i c, nth_error cellsL i = Some c ->
+      exists r, In r rows0 /\ sits c r /\ nth_error pl i = Some (ctx c, cty c, seg_orientation c r).
+Proof. exact legalize_fixpoint. Qed.
+
+(* [F on the domain rowhigh_design (rows of one positive height, pairwise disjoint, not turned;
+   movable cells of positive width, exactly one row high, not turned unless without polarity;
+   fixed cells and obstructions arbitrary)] THE property for the RAW algorithm:
+   DetailedPlacer::legalize applied to a placement that is already legal (Circuit.legal, C01)
+   succeeds and moves no cell -- every cell keeps x, y, its dimensions and flags (kept); the only
+   thing that can change is the orientation of a movable cell, which becomes the one its
+   polarity prescribes in the row under it (its own when the polarity is ANY).
+   Hypotheses beyond legality, both needed:
+   - polarity_admits: the row under each movable cell is not forbidden for its polarity
+     (legality says nothing about orientations; a cell on a forbidden row is moved away);
+   - order_left_to_right: the order is a permutation of the movable cells' indices in which
+     two cells of one free segment come left to right.  Legalizer::computeCellOrder guarantees
+     it when the ordering width lies in [0,1] (c11_order_preserved above; outside [0,1]:
+     c11_ordering_refuted, known finding F10), the float key being exact for |v| < 2^20. *)
+Theorem c11_legal_placement_not_moved : forall c rh order,
+  rowhigh_design c rh -> legal c -> polarity_admits c -> order_left_to_right c order ->
+  exists c', legalize_circuit c order = LegOk c' /\ rows c' = rows c /\
+             Forall2 (kept c) (cells c) (cells c').
+Proof. exact legalize_circuit_fixpoint. Qed.
+
+(* [F, same domain] ... and when every movable cell already has the orientation prescribed in
+   its row (e.g. no cell has a polarity, or the placement comes out of the legalizer), the
+   circuit is returned unchanged *)
+Theorem c11_legalize_idempotent : forall c rh order,
+  rowhigh_design c rh -> legal c -> polarity_admits c -> order_left_to_right c order ->
+  (forall k r, In k (movable c) -> In r (rows c) -> under r k -> seg_orientation (leg_cell_of k) r = c_o k) ->
+  legalize_circuit c order = LegOk c.
+Proof. exact legalize_circuit_idempotent. Qed.
+
+(* [F, same domain] "in particular legalizing twice gives the same positions as legalizing
+   once": the output c1 of a successful legalization of ANY row-high design (legal or not,
+   any order for the first run) is returned unchanged by a second legalization whose order is
+   left to right within each free segment of c1 *)
+Theorem c11_legalize_twice : forall c rh order order2 c1,
+  rowhigh_design c rh -> legalize_circuit c order = LegOk c1 -> order_left_to_right c1 order2 ->
+  legalize_circuit c1 order2 = LegOk c1.
+Proof. exact legalize_circuit_twice. Qed.
+
+(* [P] what is not covered: designs outside rowhigh_design (multi-row movable cells are excluded
+   by the statement of C11; turned rows, overlapping rows), and the link between the float key of
+   computeCellOrder and order_left_to_right, which is c11_order_preserved (exact arithmetic,
+   ordering width in [0,1]) plus the exactness of the float key for |v| < 2^20, checked by
+   ./check C11 on the implementation's own order. *)
+
+(* non-vacuity: two rows, an obstruction splitting the first, three movable cells (polarities
+   SAME / ANY / OPPOSITE) legally placed, two of them in one segment: every hypothesis holds,
+   and the legalizer returns the very same circuit; in the reverse order it does not *)
+Definition ex_c11 : circuit :=
+  {| rows := [ {| rr := {| minX := 0; maxX := 10; minY := 0; maxY := 2 |}; ro := oN |};
+               {| rr := {| minX := 0; maxX := 10; minY := 2; maxY := 4 |}; ro := oFS |} ];
+     cells := [ {| c_x := 4; c_y := 0; c_w := 2; c_h := 2; c_o := oN; c_pol := pANY; c_fixed := true; c_obs := true |};
+                {| c_x := 0; c_y := 0; c_w := 3; c_h := 2; c_o := oN; c_pol := pSAME; c_fixed := false; c_obs := true |};
+                {| c_x := 2; c_y := 2; c_w := 3; c_h := 2; c_o := oS; c_pol := pANY; c_fixed := false; c_obs := true |};
+                {| c_x := 6; c_y := 2; c_w := 2; c_h := 2; c_o := oN; c_pol := pOPPOSITE; c_fixed := false; c_obs := true |} ] |}.
+
+Example c11_circuit_nonvacuous :
+  rowhigh_design ex_c11 2 /\ legal ex_c11 /\ polarity_admits ex_c11 /\
+  order_left_to_right ex_c11 [0%nat; 1%nat; 2%nat] /\
+  (forall k r, In k (movable ex_c11) -> In r (rows ex_c11) -> under r k ->
+               seg_orientation (leg_cell_of k) r = c_o k) /\
+  legalize_circuit ex_c11 [0%nat; 1%nat; 2%nat] = LegOk ex_c11 /\
+  legalize_circuit ex_c11 [0%nat; 2%nat; 1%nat] <> LegOk ex_c11.
+Proof.
+  assert (Hmv : forall k, In k (movable ex_c11) ->
+            k = {| c_x := 0; c_y := 0; c_w := 3; c_h := 2; c_o := oN; c_pol := pSAME; c_fixed := false; c_obs := true |} \/
+            k = {| c_x := 2; c_y := 2; c_w := 3; c_h := 2; c_o := oS; c_pol := pANY; c_fixed := false; c_obs := true |} \/
+            k = {| c_x := 6; c_y := 2; c_w := 2; c_h := 2; c_o := oN; c_pol := pOPPOSITE; c_fixed := false; c_obs := true |}).
+  { intros k Hk. vm_compute in Hk. destruct Hk as [<-|[<-|[<-|[]]]]; auto. }
+  split; [|split; [|split; [|split; [|split; [|split]]]]].
+  - split; [lia|]. split; [|split; [|split]].
+    + intros r [<-|[<-|[]]]; reflexivity.
+    + apply pairwise_disjointb_spec. vm_compute. reflexivity.
+    + intros r [<-|[<-|[]]]; reflexivity.
+    + intros k Hk. destruct (Hmv k Hk) as [-> | [-> | ->]]; (split; [vm_compute; reflexivity|split; [vm_compute; reflexivity|]]);
+        [left|right|left]; reflexivity.
+  - apply legalb_correct. vm_compute. reflexivity.
+  - intros k r Hk Hr Hu. destruct (Hmv k Hk) as [-> | [-> | ->]]; destruct Hr as [<-|[<-|[]]];
+      first [vm_compute; discriminate | exfalso; unfold under in Hu; cbn in Hu; lia].
+  - split; [repeat constructor; cbn; intuition discriminate|]. split.
+    + intros i. change (length (movable ex_c11)) with 3%nat. cbn. split; [intros [<-|[<-|[<-|[]]]]; lia|].
+      intros H. destruct i as [|[|[|i]]]; auto; lia.
+    + intros a b i j ki kj s Ha Hb Hi Hj Hs Si Sj Hx.
+      destruct a as [|[|[|a]]]; cbn in Ha; try (destruct a; discriminate); injection Ha as <-;
+      destruct b as [|[|[|b]]]; cbn in Hb; try (destruct b; discriminate); injection Hb as <-; try lia;
+      vm_compute in Hi; vm_compute in Hj; injection Hi as <-; injection Hj as <-;
+      exfalso; unfold sits in Si, Sj; cbn in Si, Sj, Hx; lia.
+  - intros k r Hk Hr Hu. destruct (Hmv k Hk) as [-> | [-> | ->]]; destruct Hr as [<-|[<-|[]]];
+      first [vm_compute; reflexivity | exfalso; unfold under in Hu; cbn in Hu; lia].
+  - vm_compute. reflexivity.
+  - vm_compute. discriminate.
+Qed.
+
+Print Assumptions c11_abacus_fixpoint.
+Print Assumptions c11_legalize_fixpoint.
+Print Assumptions c11_legal_placement_not_moved.
+(* non-vacuity of c11_legalize_twice: the same rows with the three cells far away and stacked;
+   the first run moves them, the second returns its input *)
+Definition ex_c11_bad : circuit :=
+  {| rows := rows ex_c11;
+     cells := [ {| c_x := 4; c_y := 0; c_w := 2; c_h := 2; c_o := oN; c_pol := pANY; c_fixed := true; c_obs := true |};
+                {| c_x := 7; c_y := 9; c_w := 3; c_h := 2; c_o := oS; c_pol := pSAME; c_fixed := false; c_obs := true |};
+                {| c_x := 7; c_y := 9; c_w := 3; c_h := 2; c_o := oS; c_pol := pANY; c_fixed := false; c_obs := true |};
+                {| c_x := -5; c_y := 1; c_w := 2; c_h := 2; c_o := oFN; c_pol := pOPPOSITE; c_fixed := false; c_obs := true |} ] |}.
+Example c11_twice_nonvacuous :
+  exists c1, legalize_circuit ex_c11_bad [2%nat; 0%nat; 1%nat] = LegOk c1 /\ c1 <> ex_c11_bad /\
+             legalb ex_c11_bad = false /\ legalb c1 = true /\
+             legalize_circuit c1 [2%nat; 0%nat; 1%nat] = LegOk c1.
+Proof.
+  eexists. split; [vm_compute; reflexivity|]. split; [discriminate|].
+  split; [vm_compute; reflexivity|]. split; vm_compute; reflexivity.
+Qed.
+
+Print Assumptions c11_legalize_idempotent.
+Print Assumptions c11_legalize_twice.
